@@ -47,31 +47,71 @@ def _source_hash():
         h.update(os.path.relpath(p, vf.REPO).encode() + b"\0")
         with open(p, "rb") as f:
             h.update(hashlib.sha256(f.read()).digest())
-    for n in sorted(os.listdir(TOOL)):
-        p = os.path.join(TOOL, n)
-        if os.path.isfile(p):
-            h.update(n.encode() + b"\0")
-            with open(p, "rb") as f:
-                h.update(hashlib.sha256(f.read()).digest())
+    h.update(_tool_hash().encode())
     rc, o = vf.sh(["go", "version"], env=vf.GOENV, timeout=60)
     h.update(o.encode())
     return h.hexdigest()[:32], len(files)
+
+
+def _tool_hash():
+    """hash of the translator's sources and of its self-test fixture"""
+    th = hashlib.sha256()
+    for root, dirs, names in os.walk(TOOL):
+        dirs.sort()
+        for n in sorted(names):
+            p = os.path.join(root, n)
+            th.update(os.path.relpath(p, TOOL).encode() + b"\0")
+            with open(p, "rb") as f:
+                th.update(hashlib.sha256(f.read()).digest())
+    return th.hexdigest()[:16]
 
 
 def _tool_binary():
     """build the translator (x/tools v0.29.0 from the module cache); rebuilt when its sources change"""
     d = os.path.join(vf.OUT, PID)
     os.makedirs(d, exist_ok=True)
-    th = hashlib.sha256()
-    for n in sorted(os.listdir(TOOL)):
-        with open(os.path.join(TOOL, n), "rb") as f:
-            th.update(f.read())
-    binp = os.path.join(d, "effects-" + th.hexdigest()[:12])
+    binp = os.path.join(d, "effects-" + _tool_hash())
     if not os.path.exists(binp):
-        rc, o = vf.sh(["go", "build", "-o", binp, "."], cwd=TOOL, env=vf.GOENV, timeout=600)
+        tmp = binp + ".tmp%d" % os.getpid()
+        rc, o = vf.sh(["go", "build", "-o", tmp, "."], cwd=TOOL, env=vf.GOENV, timeout=600)
         if rc != 0:
             return None, o
+        os.replace(tmp, binp)
     return binp, ""
+
+
+def selftest():
+    """run the translator on its fixture (harness/tools/effects/selftest: a miniature module with one seeded
+    receiver write per construct — field store, map update through a helper, append into a shared slice, write
+    through a closure-captured variable behind a named func type, package variable, embedded pointer, delete,
+    copy, interface call, slice handed to sort — and clean types) and compare with selftest/expected.json.
+    Cached per translator hash."""
+    binp, o = _tool_binary()
+    if binp is None:
+        return False, "effects translator does not build: " + o[-1500:]
+    marker = binp + ".selftest"
+    if os.path.exists(marker):
+        return True, open(marker).read()
+    outp = binp + ".selftest.json"
+    rc, o = vf.sh([binp, "-repo", os.path.join(TOOL, "selftest"), "-json", outp], env=vf.GOENV, timeout=300)
+    if rc != 0:
+        return False, "translator self-test does not run: " + o[-1500:]
+    rows = json.load(open(outp))["rows"]
+    got = {r["type"] + "." + m["name"]: sorted({e["kind"] for e in (m.get("effects") or [])}) for r in rows for m in r["methods"]}
+    exp = json.load(open(os.path.join(TOOL, "selftest", "expected.json")))
+    bad = ["%s: expected %s, extracted %s" % (k, sorted(v), got.get(k)) for k, v in sorted(exp.items()) if got.get(k) != sorted(v)]
+    if bad:
+        return False, "translator self-test FAILED (the effect extraction misses or invents writes): " + "; ".join(bad)
+    msg = "translator self-test: %d seeded methods of the fixture module extracted as expected" % len(exp)
+    with open(marker, "w") as f:
+        f.write(msg)
+    return True, msg
+
+
+def gen_translator_selftest(rep):
+    ok, msg = selftest()
+    rep.notes.append(msg)
+    return ok, msg
 
 
 def _install(src, dst):
@@ -162,6 +202,9 @@ def custom(P, tier, seed, replay):
         # the kernel accepts the table although the JSON lists effects: leave the decision to the generic runner
         return runner.run_property(P, tier, seed, replay)
     rep = vf.Report(PID, tier, seed)
+    oks, msgs = selftest()
+    rep.obligation("generate:gen_translator_selftest", oks)
+    rep.notes.append(msgs)
     rep.notes.append(msg)
     rep.obligation("generate:gen_effects_table", True)
     rep.obligation("example:Gen.EffectsOk.effects_read_only", False)
@@ -232,12 +275,13 @@ def extra_coverage():
 
 P = {
     "id": PID,
-    "claimed": False,
+    "claimed": True,
     "coq_targets": ["Gen/EffectsOk.vo", "Properties/C17.vo", "Run/Eval_C17.vo"],
     "theorems_module": "Properties.C17",
     "theorems": ["C17_store_unchanged", "C17_race_free", "C17_calls_read_only", "C17_overrides_local", "C17_order_independent",
-                 "C17_for_every_table", "C17_sequential_runs_meet_spec", "C17_F1_pinned_refuted", "C17_nonvacuous"],
-    "generators": [gen_effects_table],
+                 "C17_for_every_table", "C17_sequential_runs_meet_spec", "C17_F1_pinned_refuted", "C17_nonvacuous",
+                 "C17_table_covers_mechanisms"],
+    "generators": [gen_translator_selftest, gen_effects_table],
     "custom": custom,
     "extra_coverage": extra_coverage,
     "streams": [{
